@@ -185,7 +185,7 @@ func c02SeveralRounds(c *Ctx) {
 
 func checkC02(c *Ctx) {
 	defer c02SeveralRounds(c)
-	c.Rule = "full key generations for all (n,t), n<=5, under seeded random schedules (answer order per phase, poll splits, lagging nodes), judged by group arithmetic on public values + machine keyrings + prysm; plus the deviating-announcement family: one participant's key announcement rewritten between machine and node (different well-formed polynomial with the same constant term / no polynomial / different key), delivered first, in the middle or last. distinct = distinct (n,t,family,deviant,position) cases"
+	c.Rule = "full key generations for all (n,t), n<=5, under seeded random schedules (answer order per phase, poll splits, lagging nodes), judged by group arithmetic on public values + machine keyrings + prysm; plus the deviating-announcement family: one participant's key announcement rewritten between machine and node (different well-formed polynomial with the same constant term / no polynomial / different key), delivered first, in the middle or last. Fault family keystore-fails: one machine's key store (LevelDB handle) is closed right before the last operation of the ceremony and reopened afterwards; the invariant is judged on every signing-ready node. Family forged: the deviant also announces in everybody else's name (own signature and sender name) with a polynomial of his choosing, before the honest announcements. distinct = distinct (n,t,family,deviant,position) cases"
 	c.Assumptions = []string{"kyber group arithmetic for public-value checks", "prysm/blst as signature judge", "machines' keyrings read with the harness-known password"}
 	cases := ntCases(5)
 	reps := c.Pick(10, 150)
@@ -209,6 +209,9 @@ func checkC02(c *Ctx) {
 		for dev := 0; dev < nt.N; dev++ {
 			for pos := 0; pos < 3; pos++ {
 				jobs = append(jobs, job{nt.N, nt.T, 0, "poly", dev, pos}, job{nt.N, nt.T, 0, "key", dev, pos}, job{nt.N, nt.T, 0, "nopoly", dev, pos})
+				if pos == 0 {
+					jobs = append(jobs, job{nt.N, nt.T, 0, "forged", dev, pos})
+				}
 				if pos == 2 || c.Thorough() {
 					jobs = append(jobs, job{nt.N, nt.T, 0, "polyext", dev, pos}, job{nt.N, nt.T, 0, "polycut", dev, pos}, job{nt.N, nt.T, 0, "polyswap", dev, pos})
 				}
@@ -331,6 +334,24 @@ func runC02Deviant(c *Ctx, n, t int, family string, dev, pos int, seed uint64, w
 			np, err := reshapedPoly(r.PubPolyBz, family[4:])
 			if err != nil {
 				return res
+			}
+			r.PubPolyBz = np
+		case "forged":
+			// the deviant also announces in everybody else's name (his own signature, his own sender name), with
+			// a polynomial of his choosing, before the honest announcements
+			np, err := otherPoly(r.PubPolyBz)
+			if err != nil {
+				return res
+			}
+			for _, o := range w.Nodes {
+				if o.Idx == dev {
+					continue
+				}
+				fr := r
+				fr.ParticipantId = o.Idx
+				fr.PubPolyBz = np
+				bz, _ := json.Marshal(fr)
+				_ = w.Board.Send(world.SignMsg(nd, req.DKGIdentifier, EvMasterKey, bz, ""))
 			}
 			r.PubPolyBz = np
 		case "nopoly":
